@@ -207,8 +207,8 @@ func c10CaseDir(cs *c10Case) (string, *profile.Profile, error) {
 	}
 	os.WriteFile(filepath.Join(dir, "prof.pb.gz"), buf.Bytes(), 0o644)
 	os.MkdirAll(filepath.Join(dir, "nopath"), 0o755)
-	for name, text := range c10SourceFiles(p) {
-		f := filepath.Join(dir, "srcroot", name)
+	for name, text := range c10SourceTrees(p) {
+		f := filepath.Join(dir, name)
 		os.MkdirAll(filepath.Dir(f), 0o755)
 		os.WriteFile(f, []byte(text), 0o644)
 	}
@@ -646,8 +646,16 @@ func runC10(c *Ctx) {
 	for i := range jobs {
 		p := c10GenProfile(r)
 		b, _ := c10WriteU(p)
-		lines := c10Script(r, c10Types(p), 8+r.Intn(9))
-		if r.Chance(8) {
+		var lines []c10Line
+		toggle := i%5 < 2 // 40% toggle scripts, 60% free-form scripts
+		if toggle {
+			var opt string
+			lines, opt = c10ToggleScript(r, c10Types(p))
+			c.Res.Hit("toggle-script:" + opt)
+		} else {
+			lines = c10Script(r, c10Types(p), 8+r.Intn(9))
+		}
+		if !toggle && r.Chance(8) {
 			k := r.Intn(len(lines))
 			lines[k] = c10Line{Text: r.Pick([]string{"quit", "exit", "q"}), Intent: "quit"}
 		}
@@ -665,7 +673,7 @@ func runC10(c *Ctx) {
 			}
 		}
 		for _, j := range cand {
-			if len(cs.Probes) < 7 {
+			if len(cs.Probes) < 10 {
 				cs.Probes = append(cs.Probes, j)
 			}
 			if m.OK && m.Lines[j].Kind == "cmd" && len(m.Lines[j].Diff) > 0 && len(cs.Desugar) < 2 {
